@@ -136,8 +136,9 @@ var kindOrder = []string{"noti", "reset", "remove", "add", "sync", "connect", "c
 var names = []string{"a", "b", "c"}
 
 // oddNames replace the alphabet in one scenario out of five: a name that is a string prefix of
-// another, names with the separators of joined representations, a multi-byte character, a name differing in case.
-var oddNames = []string{"a", "ab", "a/b", "a b", "aé", "A"}
+// another, names with the separators of joined representations, a multi-byte character, a name differing in case,
+// names that contain or begin the name of the metadata root without being it.
+var oddNames = []string{"a", "ab", "a/b", "metadata", "a b", "aé", "A", "met"}
 var useOddNames bool
 
 // useLegacyVals: in one scenario out of eight most values travel in the deprecated Update.value field (a target
@@ -157,7 +158,7 @@ func genElem(t *rapid.T, glob, small bool) gn.Elem {
 	if useOddNames {
 		alpha = oddNames
 		if small {
-			alpha = oddNames[:3]
+			alpha = oddNames[:4]
 		}
 	}
 	if glob {
@@ -260,6 +261,10 @@ func genNoti(t *rapid.T, thr int64, small bool) *Noti {
 	n.Origin = rapid.SampledFrom([]string{"", "", "", "o", "a"}).Draw(t, "origin")
 	if small {
 		n.Origin = rapid.SampledFrom([]string{"", "", "", "a"}).Draw(t, "sorigin")
+	}
+	if useOddNames && rapid.IntRange(0, 5).Draw(t, "odd-origin") == 0 {
+		// an origin is the first element of the stored path: one that begins like the metadata root
+		n.Origin = "metadata"
 	}
 	n.Element = rapid.IntRange(0, 6).Draw(t, "element") == 0
 	n.Share = rapid.IntRange(0, 3).Draw(t, "share") > 0
